@@ -56,6 +56,9 @@ structure DState where
   armed : List (String × Int) := []
   /-- provider-level sequences (awsops): the cached group the model's previous operation left behind -/
   awsG : Option PGroup := none
+  /-- C05 monitor: per group, the node size last observed in this controller lifetime ((-1,-1): the
+      uncordoned nodes listed last were not all of one size, so "the node size" is not defined). -/
+  seen : List (String × (Int × Int)) := []
 
 /-- Did this observed journal get a cloud increase accepted? -/
 def acceptedRaise (j : Journal) : Bool :=
@@ -119,6 +122,12 @@ def handleScan (ds : DState) (sc : ScanCase) : DState × Json :=
         match findState out.st.groups os.name with
         | some s => if stateOf os.name s == os then [] else [os.name ++ ":state"]
         | none => [os.name ++ ":state"])
+    -- node sizes observed by the groups processed in this scan (including this scan's listing)
+    let seen' : List (String × (Int × Int)) := sc.obs.recs.foldl (fun acc ob =>
+      let ns := ((views ob.name).nodes.filter (fun n => !n.unschedulable)).map (fun n => (n.allocCPU, n.allocMem))
+      match ns with
+      | [] => acc
+      | x :: rest => (ob.name, if rest.all (· == x) then x else (-1, -1)) :: acc.filter (fun p => p.1 != ob.name)) ds.seen
     -- monitors on the observed journals; contexts follow the model's state evolution group by group
     let mons : List String :=
       sc.obs.recs.flatMap (fun ob =>
@@ -131,7 +140,9 @@ def handleScan (ds : DState) (sc : ScanCase) : DState × Json :=
           | none => []
           | some ctx =>
             let fatalHere := sc.obs.outcome != "ok" && (sc.obs.recs.getLast?.map (·.name)) == some ob.name
-            (monitors ctx ob.j (fatalHere && sc.obs.outcome == "fatal:not-in-group") ++ monitorsWant ctx ob.delta ob.j fatalHere).map (fun m => match m.splitOn "|" with
+            let m05 := if fatalHere || seen'.lookup ob.name == some (-1, -1) then [] else
+              (Spec.C05.badFromZero ctx (seen'.lookup ob.name) ob.delta).map (fun t => "C05|" ++ t)
+            (monitors ctx ob.j (fatalHere && sc.obs.outcome == "fatal:not-in-group") ++ monitorsWant ctx ob.delta ob.j fatalHere ++ m05).map (fun m => match m.splitOn "|" with
             | [p, d] => p ++ ":" ++ ob.name ++ ":" ++ d
             | _ => m ++ ":" ++ ob.name))
     -- C15 on the observed journals, paired with the recorded responses (ordered calls only)
@@ -183,7 +194,7 @@ def handleScan (ds : DState) (sc : ScanCase) : DState × Json :=
                             forceTaintTracker := os.forceTaintTracker, minEff := os.minEff, maxEff := os.maxEff }
       | none => s
     let st' : CState := if dStates.isEmpty then out.st else { out.st with groups := out.st.groups.map (fun (n, s) => (n, resync n s)) }
-    ({ ds with st := some st', armed := armed' }, Json.mkObj (base ++ detail))
+    ({ ds with st := some st', armed := armed', seen := seen' }, Json.mkObj (base ++ detail))
 
 def shiftState (d : Int) (st : CState) : CState :=
   { st with groups := st.groups.map (fun (n, s) =>
